@@ -338,7 +338,7 @@ func Run(cfg Config) (int, error) {
 			return false
 		}
 		if out == "accept" && len(sigs) > 0 { // tampering with any signed field must invalidate
-			for f := 0; f < 10; f++ {
+			for f := 0; f < 12; f++ {
 				d2 := rg.d
 				switch f {
 				case 0:
@@ -383,11 +383,22 @@ func Run(cfg Config) (int, error) {
 					extra := make([]byte, len(rg.d.ids[0]))
 					extra[len(extra)-1] = 0xEE
 					d2.ids = append(append([][]byte{}, d2.ids...), extra)
-				default: // one identity fewer
+				case 9: // one identity fewer
 					if len(d2.ids) < 2 {
 						continue
 					}
 					d2.ids = append([][]byte{}, d2.ids[:len(d2.ids)-1]...)
+				default: // an identity repeated in place (the first / the last)
+					if len(d2.ids) == 0 {
+						continue
+					}
+					k := 0
+					if f == 11 {
+						k = len(d2.ids) - 1
+					}
+					ids := append([][]byte{}, d2.ids[:k+1]...)
+					ids = append(ids, append([]byte{}, d2.ids[k]...))
+					d2.ids = append(ids, d2.ids[k+1:]...)
 				}
 				if rg.flavour != "gnosis" && (f == 2 || f == 3) {
 					continue
